@@ -482,8 +482,11 @@ func (s *Set) c11(w *simapi.Write, v *simapi.View) {
 			// "every pod is updated and ready": no live pod of another revision is left, and of the pods the user asks for
 			// at most maxUnavailable are missing or unready (a pod that a recreate-update has deleted and not yet
 			// re-created is unavailable, not "not updated" - the reading the controllers' own wait helpers use)
-			if old > 0 || tot[img] < R-mu || ready[img] < R-mu || (R >= 1 && ready[img] < 1) {
-				s.violate("C11", fmt.Sprintf("c11:completed-before-all-updated-and-ready:%s/%s", s.S.Kind, s.S.Style),
+			// (pods that do not exist at this instant - a native rolling update between deleting and re-creating - are
+			// not "pods that are not updated": the budget is applied to the pods that exist, as the controllers' helpers do)
+			if old > 0 || ready[img] < tot[img]-mu || (R >= 1 && ready[img] < 1) {
+				fp := fmt.Sprintf("c11:completed-before-all-updated-and-ready:%s/%s", s.S.Kind, s.S.Style)
+				s.violate("C11", fp,
 					fmt.Sprintf("BatchRelease reported Completed (policy %q) while pods are: updated %d/%d, ready updated %d, ready old-revision %d (maxUnavailable %d)", policy, tot[img], R, ready[img], old, mu), w, nil)
 			}
 		}
@@ -599,6 +602,29 @@ func (s *Set) c18(w *simapi.Write, v *simapi.View) {
 				}
 			}
 		}
+	}
+}
+
+// c18Final is the converse clause: once cleanup is complete the finalizer is removed, so that deletion is not blocked
+// for ever. Judged when the run has reached its terminal state and the cluster has gone quiet: an object of this rollout
+// (Rollout, BatchRelease, TrafficRouting) that is still terminating then will stay so - nothing is enabled any more.
+func (s *Set) c18Final() {
+	r := s.R
+	if !r.Terminal || !r.Quiescent {
+		return
+	}
+	v := r.W.Store.Snapshot()
+	for _, k := range []simapi.Key{
+		{Group: "rollouts.kruise.io", Kind: "Rollout", NS: s.ns, Name: s.S.RolloutName()},
+		{Group: "rollouts.kruise.io", Kind: "BatchRelease", NS: s.ns, Name: s.S.RolloutName()},
+		{Group: "rollouts.kruise.io", Kind: "TrafficRouting", NS: s.ns, Name: s.S.TRName()},
+	} {
+		o := v.GetKey(k)
+		if o == nil || !simapi.Deleting(o) {
+			continue
+		}
+		s.count("c18_terminating_objects_at_quiescence", 1)
+		s.violate("C18", "c18:deletion-blocked-at-quiescence:"+k.Kind, fmt.Sprintf("%s %s/%s is still terminating (finalizers %v) after the run reached its terminal state and the cluster went quiet: nobody is left to remove the finalizer", k.Kind, k.NS, k.Name, simapi.Finalizers(o)), nil, s.Projection(v))
 	}
 }
 
